@@ -28,10 +28,25 @@ const ExNS = "http://example.org/"
 // predLocal: the local name of predicate i. Odd predicates carry an underscore (legal in the
 // path grammar and in placeholders), even ones do not, so that every family exercises both.
 func predLocal(i int) string {
+	if i == 2 {
+		// ... and predicate 2 differs from predicate 1 only in a dash for the underscore: names that an
+		// identifier made from them by replacing punctuation cannot tell apart
+		return "p-1"
+	}
 	if i%2 == 1 {
 		return fmt.Sprintf("p_%d", i)
 	}
 	return fmt.Sprintf("p%d", i)
+}
+
+// predOfLocal: the predicate whose local name this is (-1 when none of the first ten).
+func predOfLocal(local string) int {
+	for i := 0; i < 10; i++ {
+		if predLocal(i) == local {
+			return i
+		}
+	}
+	return -1
 }
 func predName(i int) string { return "ex." + predLocal(i) }
 func PredIRI(i int) string  { return ExNS + predLocal(i) }
@@ -288,6 +303,10 @@ type Validation struct {
 	Class   int    // index into Scope.Classes
 	F       Formula
 	Message string
+	// Extra: a second expression written into the same mapping under a key of lower precedence than F's
+	// (the translator takes one expression key per mapping, by a fixed order of preference, whatever the
+	// order of the keys in the text); it takes no part in the meaning
+	Extra Formula
 }
 
 // Program is a declarative profile together with its formulas.
